@@ -10,7 +10,7 @@ Two == {I("Merge", "Merge", 2), I("Merge", "MergeWith", 2), I("Merge", "MergeWit
         I("CombineLatest", "CombineLatestAny", 2),
         I("Zip", "Zip2", 2), I("Zip", "ZipWith", 2), I("Zip", "ZipWith1", 2), I("Zip", "Zip", 2),
         I("Race", "Race", 2), I("Race", "RaceWith", 2), I("Race", "Amb", 2),
-        I("TakeUntil", "TakeUntil", 2), I("SkipUntil", "SkipUntil", 2),
+        I("TakeUntil", "TakeUntil", 2), I("SkipUntil", "SkipUntil", 2), I("SequenceEqual", "SequenceEqual", 2),
         I("BufferWhen", "BufferWhen", 2), I("SampleWhen", "SampleWhen", 2), I("ThrottleWhen", "ThrottleWhen", 2), I("WindowWhen", "WindowWhen", 2)}
 Three == {I("Merge", "Merge", 3), I("Merge", "MergeWith2", 3), I("CombineLatest", "CombineLatest3", 3), I("Zip", "Zip3", 3), I("Race", "Race", 3)}
 One == {I("GroupBy", "GroupBy", 1), I("GroupBy", "GroupByI", 1), I("GroupBy", "GroupByWithContext", 1), I("GroupBy", "GroupByIWithContext", 1), I("GroupByLeave", "GroupBy", 1), I("GroupByCut", "GroupBy", 1)}
